@@ -12,6 +12,8 @@ Tie (every run, on /repo's current tree):
     call trees (harness/c/c01_harness.c); every slot snapshot, mtd.idx, returned address and errno flag is
     compared with the model inside Coq and judged by the checker `shadow_ok`;
   * the real mcount_save/restore_arch_context pair on generated xmm contents vs the model + checker `xmm_ok`;
+  * the real mcount_entry/mcount_exit wrappers called with chosen xmm0-15 while a libc stand-in they reach
+    overwrites every xmm register vs the hook-call contract of Machine.v + checker `hook_xmm_ok`;
   * assumption monitors: objdump of libmcount*.so (no SSE/x87 instruction outside the known sites) and an
     end-to-end differential: generated C programs over ABI signature classes x {-pg, -mfentry,
     -finstrument-functions, -fpatchable-function-entry + -P .} x {-O0,-O2} x record options, traced vs native
@@ -654,18 +656,22 @@ def common_meta(ctx):
         "coq/theories/C01/Machine.v: the instruction semantics (words as integers, exact pointer arithmetic, "
         "8-byte cells, ZF only) and the contract of a hook call [c_call]",
         "coq/theories/C01/Shadow.v: hand-written model of __mcount_entry/__mcount_exit/__plthook_entry/exit/"
-        "__cygprof_entry/exit, mcount_auto_restore/rehook, mcount_rstack_restore/rehook (PLT frames are not "
-        "driven in-process: model + proof + end-to-end only)",
+        "__cygprof_entry/exit, mcount_auto_restore/rehook, mcount_rstack_restore/rehook (PLT frames are driven "
+        "in-process on a fake module: libmcount/plthook.c is #included into the harness)",
+        "coq/theories/C01/ArchCtx.v: semantics of movsd/movq/movdqu/movups for the generated save/restore lists",
         "harness/c/c01_harness.c, props/c01.py, props/c01_progs.py (drivers, generators, comparison)",
         "gcc/binutils of the sandbox for the end-to-end programs and the objdump monitor",
     ]
     ctx.assume = [
         "real x86-64 CPU behaves as Machine.v says for the ~18 instruction forms the stubs use; rsp is 8-byte "
         "aligned at stub entry; no address arithmetic wraps",
-        "a hook call obeys the System V contract of c_call: callee-saved registers, rsp, memory at/above the "
-        "caller's rsp (except the return slot handed to mcount_entry/plthook_entry) and ALL xmm registers are "
-        "left alone - the last clause holds because libmcount is built with -mgeneral-regs-only and its inline-asm "
-        "sites are the modelled pair (monitored by objdump on every run, not proved for the compiler)",
+        "a hook call obeys the contract of c_call: callee-saved registers, rsp and memory at/above the caller's "
+        "rsp (except the return slot handed to mcount_entry/plthook_entry) are left alone (System V ABI, "
+        "compiler); xmm0-7 are what the generated save/restore pair gives back around the hook body (the six C "
+        "wrappers; their bracket structure is re-read from the C text on every run and exercised in-process "
+        "with an xmm-clobbering libc stand-in); xmm8-15, AVX upper halves and x87 are NOT protected on paths "
+        "that reach libc; libmcount's own code is SSE-free (-mgeneral-regs-only, monitored by objdump)",
+        "mcount_find_code (called by __dentry__ without a wrapper) leaves all xmm registers alone",
         "-pg code keeps the parent's return slot at 8(%rbp) above the mcount call's own return address",
         "return addresses of the program are never the address of mcount_return/dynamic_return/plthook_return",
         "no exception/longjmp/signal unwinding (C11), no fork/exec inside the hooks, mtdp->in_exception = false",
